@@ -1,4 +1,5 @@
 import BoltonsVerif.C09.BucketProofs
+import BoltonsVerif.C09.UniqueProofs
 /-
 C09 helper lemmas: redundant reports exactly the keys seen more than once.
 -/
@@ -286,5 +287,169 @@ theorem redundantGroups_spec (f : α → κ) (src : List α) :
     unfold redundantGroups
     rw [List.mem_map]
     exact ⟨_, this, rfl⟩
+
+/-! ### order of the report: by the position of each key's second occurrence -/
+
+theorem mem_unique_id (l : List κ) (k : κ) : k ∈ unique id l ↔ k ∈ l := by
+  constructor
+  · intro h
+    exact (uniqueLoop_sublist id l []).subset h
+  · intro h
+    rcases uniqueLoop_covers id l [] k h with h' | h'
+    · simp at h'
+    · simpa [unique] using h'
+
+theorem uniqueLoop_snoc (l : List κ) (k : κ) : ∀ seen : List κ,
+    uniqueLoop id (l ++ [k]) seen = uniqueLoop id l seen ++ (if k ∈ seen ∨ k ∈ l then [] else [k]) := by
+  induction l with
+  | nil => intro seen; simp [uniqueLoop]
+  | cons a as ih =>
+    intro seen
+    simp only [List.cons_append, uniqueLoop, id_eq]
+    by_cases ha : a ∈ seen
+    · simp only [ha, ↓reduceIte, ih, List.mem_cons]
+      by_cases hk : k = a
+      · subst hk; simp [ha]
+      · simp [hk]
+    · simp only [ha, ↓reduceIte, ih, List.mem_cons, List.cons_append]
+      congr 2
+      by_cases hk : k = a
+      · subst hk; simp
+      · simp [hk, or_assoc]
+
+theorem unique_id_snoc (l : List κ) (k : κ) :
+    unique id (l ++ [k]) = if k ∈ l then unique id l else unique id l ++ [k] := by
+  unfold unique
+  rw [uniqueLoop_snoc]
+  by_cases h : k ∈ l <;> simp [h]
+
+theorem laterKeys_snoc (f : α → κ) (i : α) : ∀ (pre : List α) (seen : List κ),
+    laterKeys f seen (pre ++ [i]) =
+      laterKeys f seen pre ++ (if f i ∈ seen ∨ f i ∈ pre.map f then [f i] else []) := by
+  intro pre
+  induction pre with
+  | nil => intro seen; simp [laterKeys]
+  | cons a as ih =>
+    intro seen
+    simp only [List.cons_append, laterKeys]
+    by_cases ha : f a ∈ seen
+    · simp only [ha, ↓reduceIte, ih, List.map_cons, List.mem_cons, List.cons_append]
+      congr 2
+      by_cases hk : f i = f a
+      · simp [hk, ha]
+      · simp [hk]
+    · simp only [ha, ↓reduceIte, ih, List.map_cons, List.mem_cons]
+      congr 1
+      by_cases hk : f i = f a
+      · simp [hk]
+      · simp [hk, or_assoc]
+
+theorem mem_map_iff_occ (f : α → κ) (k : κ) (pre : List α) : k ∈ pre.map f ↔ occ f k pre ≠ [] := by
+  constructor
+  · intro h
+    obtain ⟨x, hx, rfl⟩ := List.mem_map.mp h
+    exact List.ne_nil_of_mem (a := x) (by simp [occ, hx])
+  · intro h
+    obtain ⟨x, hx⟩ := List.exists_mem_of_ne_nil _ h
+    simp only [occ, List.mem_filter, decide_eq_true_eq] at hx
+    exact List.mem_map.mpr ⟨x, hx.1, hx.2⟩
+
+theorem redLoop_order (f : α → κ) (groups : Bool) :
+    ∀ (src pre : List α) (seen : List (κ × α)) (rg : List (κ × List α)),
+      InvS f pre seen → keysOf rg = unique id (laterKeys f [] pre) →
+      keysOf (redLoop f groups src seen rg) = unique id (laterKeys f [] (pre ++ src)) := by
+  intro src
+  induction src with
+  | nil => intro pre seen rg _ hr; simpa [redLoop] using hr
+  | cons i src ih =>
+    intro pre seen rg hs hr
+    have happ : pre ++ i :: src = (pre ++ [i]) ++ src := by simp
+    rw [happ, redLoop]
+    have hs0 := hs (f i)
+    cases hl : lookup (f i) seen with
+    | none =>
+      simp only
+      rw [hl] at hs0
+      have hocc : occ f (f i) pre = [] := by
+        cases h : occ f (f i) pre with
+        | nil => rfl
+        | cons a as => rw [h] at hs0; simp at hs0
+      have hnm : f i ∉ pre.map f := by rw [mem_map_iff_occ]; simp [hocc]
+      apply ih
+      · intro k
+        rw [lookup_append_single, occ_snoc, hs k]
+        by_cases hk : f i = k
+        · subst hk; simp [hocc]
+        · simp only [hk, ↓reduceIte, List.append_nil]
+          cases (occ f k pre).head? <;> simp
+      · rw [laterKeys_snoc]
+        simp [hnm, hr]
+    | some first =>
+      simp only
+      rw [hl] at hs0
+      have hne : occ f (f i) pre ≠ [] := by
+        intro h; rw [h] at hs0; simp at hs0
+      have hm : f i ∈ pre.map f := (mem_map_iff_occ f (f i) pre).mpr hne
+      have hsnext : InvS f (pre ++ [i]) seen := by
+        intro k
+        rw [occ_snoc, hs k]
+        by_cases hk : f i = k
+        · subst hk
+          cases h : occ f (f i) pre with
+          | nil => exact absurd h hne
+          | cons a as => simp
+        · simp [hk]
+      have hlk : laterKeys f [] (pre ++ [i]) = laterKeys f [] pre ++ [f i] := by
+        rw [laterKeys_snoc]; simp [hm]
+      by_cases hsome : (lookup (f i) rg).isSome = true
+      · have hin : f i ∈ laterKeys f [] pre := by
+          rw [← mem_unique_id, ← hr, mem_keysOf_iff_lookup]
+          intro h; rw [h] at hsome; simp at hsome
+        simp only [hsome, ↓reduceIte]
+        have hk2 : unique id (laterKeys f [] (pre ++ [i])) = unique id (laterKeys f [] pre) := by
+          rw [hlk, unique_id_snoc]; simp [hin]
+        cases groups with
+        | true =>
+          simp only [↓reduceIte]
+          apply ih _ _ _ hsnext
+          rw [keysOf_appendAt, hk2, hr]
+        | false =>
+          simp only [Bool.false_eq_true, ↓reduceIte]
+          apply ih _ _ _ hsnext
+          rw [hk2, hr]
+      · have hnone : lookup (f i) rg = none := by
+          cases h : lookup (f i) rg with
+          | none => rfl
+          | some v => rw [h] at hsome; simp at hsome
+        have hnin : f i ∉ laterKeys f [] pre := by
+          rw [← mem_unique_id, ← hr, mem_keysOf_iff_lookup]
+          simp [hnone]
+        simp only [hnone, Option.isSome_none, Bool.false_eq_true, ↓reduceIte]
+        apply ih _ _ _ hsnext
+        rw [hlk, unique_id_snoc, if_neg hnin, ← hr]
+        simp [keysOf]
+
+theorem redundant_keys_order (f : α → κ) (groups : Bool) (src : List α) :
+    keysOf (redLoop f groups src [] []) = unique id (laterKeys f [] src) := by
+  have := redLoop_order f groups src [] [] [] (by intro k; simp [lookup, occ])
+    (by simp [keysOf, laterKeys, unique, uniqueLoop])
+  simpa using this
+
+/-- `redundant(groups=True)` is completely determined: the keys seen more than once in the order of
+    their second occurrence, each with all its items -/
+theorem redundantGroups_eq_map (f : α → κ) (src : List α) :
+    redundantGroups f src =
+      (unique id (laterKeys f [] src)).map (fun k => src.filter (fun x => decide (f x = k))) := by
+  rw [← redundant_keys_order f true src]
+  unfold redundantGroups keysOf
+  rw [List.map_map]
+  apply List.map_congr_left
+  intro e he
+  have := (redLoop_entry f true src e he).1
+  simpa [expect, occ] using this
+
+theorem redundant_map_order (f : α → κ) (src : List α) :
+    (redundant f src).map f = unique id (laterKeys f [] src) := by
+  rw [redundant_map_keys, redundant_keys_order]
 
 end C09
